@@ -26,6 +26,7 @@ PARAMS = ["xorname", "timestamp", "quoting_metrics", "rewards_address"]
 
 def run(R):
     F = R.F
+    history_rules(R)
     # (1) signed field set
     bfs = R.body("C13.fields", PQ + "::bytes_for_sig")
     adt = F.adts.get(PQ)
@@ -309,3 +310,39 @@ def verify_for_rules(R, pfx):
     if not okc:
         R.viol(pfx + ".verify_for.claimed", "claimed-peer", "verify_for does not check each quote against the peer id the proof claims for it", vf, vf.lines[0])
     R.inst(pfx + ".verify_for.claimed", "K6 flows-to", "quote checked against its claimed (encoded) peer id", 1, okc)
+
+
+VPQ = "ant_networking::cmd::<impl ant_networking::driver::SwarmDriver>::verify_peer_quote"
+
+
+def history_rules(R):
+    """The reference quote kept per peer is what later quotes are judged against: an inconsistent quote is flagged, and the kept
+    quote is replaced only by a quote that is not older (so the highest figures seen so far stay the reference)."""
+    F = R.F
+    vp = R.body("C13.history.keep", VPQ)
+    if vp is None:
+        return
+    prep(vp)
+    g = cfg_of(vp)
+    GET = ["alloc::collections::btree::map::BTreeMap::get", "std::collections::hash::map::HashMap::get"]
+    INS = CallSink("alloc::collections::btree::map::BTreeMap::insert", "std::collections::hash::map::HashMap::insert")
+    hist = Taint(vp, through="all").closure(call_results(GET)(vp))
+    newq = Taint(vp).closure(PL(vp, 2))
+
+    def hist_is_newer(body, blk, t):
+        # history_quote.is_newer_than(&quote): receiver from the history map, argument the incoming quote
+        return op_local(t["args"][0]) in hist and op_local(t["args"][1]) in newq
+    keep = CallGuard([PQ + "::is_newer_than"], ("false",), "the kept quote is not newer than the incoming one", arg_pred=hist_is_newer)
+    none = CallGuard(GET, ("None",), "no quote kept for this peer yet")
+    R.gate("C13.history.keep", vp, INS, [[keep, none]], descr="the reference quote of a peer is replaced only by a quote that is not older")
+    # inconsistent ⇒ flagged, and not stored
+    hv = CallGuard([PQ + "::historical_verify"], ("true",), "history_quote.historical_verify(&quote)")
+    n, acc, rej = hv.edges(vp)
+    flag = set(CallSink("ant_networking::cmd::<impl ant_networking::driver::SwarmDriver>::record_node_issue").blocks(vp))
+    rets = {b["id"] for b in vp.blocks if b["term"]["k"] == "return"}
+    okf = bool(rej) and bool(flag) and all(not (g.reach((d,), avoid=flag) & rets) for _, d in rej) and all(not (g.reach((d,)) & set(INS.blocks(vp))) for _, d in rej)
+    hvs = [b for b in vp.blocks if b["term"]["k"] == "call" and callee_matches(b["term"], [PQ + "::historical_verify"])]
+    okf = okf and bool(hvs) and all(op_local(b["term"]["args"][0]) in hist and op_local(b["term"]["args"][1]) in newq for b in hvs)
+    if not okf:
+        R.viol("C13.history.flag", "inconsistent-not-flagged", "a quote failing historical_verify against the kept quote is not flagged (record_node_issue) or is stored anyway", vp, vp.lines[0])
+    R.inst("C13.history.flag", "K5 must-follow", "kept.historical_verify(incoming) false ⇒ BadQuoting recorded, incoming not stored", len(hvs), okf)
